@@ -367,14 +367,20 @@ pub fn recursion_programs(out: &mut Vec<(String, Program)>) {
 }
 
 pub fn all_programs(thorough: bool) -> Vec<(String, Program)> {
+    all_programs_len(if thorough { 4 } else { 3 })
+}
+
+pub fn all_programs_len(max_len: usize) -> Vec<(String, Program)> {
     let mut out = Vec::new();
-    for f in loops_family(thorough) {
+    let mut fams = loops_family(false);
+    fams.push(closures_family(false));
+    fams.push(blobs_family(false));
+    fams.push(enums_family(false));
+    fams.push(globals_family(false));
+    for mut f in fams {
+        f.max_len = max_len;
         f.programs(&mut out);
     }
-    closures_family(thorough).programs(&mut out);
-    blobs_family(thorough).programs(&mut out);
-    enums_family(thorough).programs(&mut out);
-    globals_family(thorough).programs(&mut out);
     recursion_programs(&mut out);
     out
 }
